@@ -1159,7 +1159,7 @@ func runSigRange(c *vc.Ctx) {
 						func() bool { f, _ := sigRangeFiles(cc); return runPA(f).Panic != "" })
 				case v.Success:
 					c.Outcome(sec, "ACCEPTED-MODIFIED")
-					c.Violation(sec, fmt.Sprintf("sigrange-accept/%s/%s/r=%s,s=%s", where, curve, cs.R, cs.S), fmt.Sprintf("PassiveAuth reports Success with the %s of a %s document replaced by (r=%s, s=%s)", where, curve, cs.R, cs.S), cs, nil)
+					c.Violation(sec, "sigrange-accept/"+where, fmt.Sprintf("PassiveAuth reports Success with the %s of a %s document replaced by (r=%s, s=%s)", where, curve, cs.R, cs.S), cs, nil)
 				default:
 					c.Outcome(sec, "refused")
 				}
